@@ -1,6 +1,6 @@
 (* MV.C03.Properties — property C03 ("every actor incarnation sees a well-formed lifecycle") on the kernel model. *)
-From MV Require Import Kernel.Launch.
-From MV Require Import Lib.ListX Kernel.Model Kernel.Run Kernel.Lifecycle Kernel.Status.
+From MV Require Import Kernel.Launch Kernel.Restart.
+From MV Require Import Lib.ListX Kernel.Model Kernel.Run Kernel.Lifecycle Kernel.Status Kernel.Registry Kernel.Suspend Kernel.NoUser.
 Open Scope Z_scope.
 
 (* Clause "nothing at all is handled by that incarnation after its own OnTerminated": an actor object whose
@@ -63,3 +63,42 @@ Proof. eexists. eexists. split; [vm_compute; reflexivity|]. split; vm_compute; r
 Example C03_example :
   exists s os a, krun c03_roles kinit c03_labels = Some (s, os) /\ get s 2 = Some a /\ a_st a = Terminated.
 Proof. eexists. eexists. eexists. split; [vm_compute; reflexivity|]. split; vm_compute; reflexivity. Qed.
+
+(* Second sentence: "a supervised restart is observed as OnRestarting, OnTerminate, OnTerminated on the old instance, then
+   OnRestarted and OnLaunch on a fresh instance obtained from the provider, with no user message handled in between".
+   The completion of a restart (the last child has gone) is ONE step of the actor's mailbox. For every role table and from
+   every state, that step shows exactly four Handled observations, in this order: OnTerminate and OnTerminated by the old
+   instance number, OnRestarted and OnLaunch by the instance number the provider hands out in that step — whatever the
+   four handlers do (a failure in a handler of a restarting actor is logged and the sequence goes on; a failure in
+   OnRestarted does not keep OnLaunch from being handled); the actor is alive afterwards. Nothing else is handled in that
+   step, so nothing comes in between these four. (That the instance number is new is observed per run: the lockstep
+   compares the instance ids, which the Go harness takes in the provider.) *)
+Theorem C03_restart_completes_in_order : forall roles s u snd a s' o p,
+  get s u = Some a -> a_children a = [] -> a_st a = Restarting -> is_sys (a_tok a) = false ->
+  try_restarted roles s u snd = (s', o, p) ->
+  exists a', get s' u = Some a' /\ a_tok a' = a_tok a /\ a_st a' = Alive /\
+    handled o = [OH (a_tok a) (a_inst a) TT 0%nat rNone; OH (a_tok a) (a_inst a) TTS 0%nat rNone;
+                 OH (a_tok a) (a_inst a') TRD 0%nat rNone; OH (a_tok a) (a_inst a') TL 0%nat rNone].
+Proof. exact restart_shape. Qed.
+Print Assumptions C03_restart_completes_in_order.
+
+(* "... with no user message handled in between", the window between OnRestarting and the completing step (the actor waits
+   for its children), PARTIAL: onRestart suspends the mailbox within the step that handles OnRestarting, so the actor is
+   "waiting" at the end of that step (C04_own_step_ending_suspended_is_waiting); a waiting actor for whose address no
+   resume request is pending stays waiting — its mailbox hands it no user message — through every step that shows no
+   marker for its address (Kernel.NoUser). The markers are: the completing step itself (OnTerminate / OnTerminated of the
+   old instance), a termination overtaking the restart, and a supervisor's Resume decision for that address. What this
+   statement does not cover is a Resume decision that is pending or arrives during the window: with the repaired code the
+   request is ignored by a restarting actor (the model's SResumeReq branch; scenario C04_stale_resume_does_not_resume_a_
+   restarting_actor, replayed on the implementation by the lockstep corpus) — stated per run (monitor
+   C03:user-message-during-restart), not as a theorem over all runs. *)
+Theorem C03_no_user_message_while_restarting_partial : forall roles ls0 s0 os0 ls s' os u a,
+  krun roles kinit ls0 = Some (s0, os0) ->
+  get s0 u = Some a -> is_sys (a_tok a) = false -> a_st a = Restarting -> waiting (a_tok a) a -> nrp (a_tok a) s0 ->
+  krun roles s0 ls = Some (s', os) -> (forall o, In o os -> marker (a_tok a) o = false) ->
+  exists a', get s' u = Some a' /\ waiting (a_tok a) a'.
+Proof.
+  intros roles ls0 s0 os0 ls s' os u a Hr Hg Hs _. apply (no_user_run roles ls s0 s' os u a); [|exact Hg|exact Hs].
+  eapply RI_reachable; [apply RI_init|exact Hr].
+Qed.
+Print Assumptions C03_no_user_message_while_restarting_partial.
